@@ -2,29 +2,23 @@
 #include "queue_spec.h"
 Q_GHOST_DEFS
 
-/* popped bytes are view[g_len-len .. g_len); ghost g_k2 = g_len - len + j for an arbitrary j */
-#define POP_REFUSE_LONG(q, n_, ret)  IMP((n_) > g_len, (ret) == 0 && Q_SAME(q))
-#define POP_REFUSED_SAME(q, ret)      IMP((ret) == 0, Q_SAME(q))
-#define POP_MUST_SUCCEED(n_, dst, ret) IMP((n_) <= g_len && (dst) != 0, (ret) != 0)
-#define POP_OK_STRUCT(q, n_, ret)    IMP((ret) != 0, (q)->len == g_len - (n_) && (q)->off == g_off && Q_GEOM(q))
-#define POP_OK_KEEP(q, n_, ret)      IMP((ret) != 0 && g_k1 < g_len - (n_), QV(q, g_k1) == g_v1)
-#define POP_OK_DATA(q, n_, dst, ret) IMP((ret) != 0 && (dst) && g_k2 >= g_len - (n_) && g_k2 < g_len, ((const uint8_t *) (dst))[g_k2 - (g_len - (n_))] == g_v2)
-#define POP_OK_PTR(q, n_, ret)       IMP((ret) != 0 && g_k2 == g_len - (n_) && (n_) > 0, *((const uint8_t *) (ret)) == g_v2)
-#define POP_STORAGE(q)                IMP(g_p < g_max, ((const uint8_t *) (q)->base)[g_p] == g_vp)
+/* popped bytes are view[g_len-n .. g_len); ghost g_k2 = g_len - n + j for an arbitrary j */
+#define POST_mpt_qpop(X, q_, n_, d_, r_) \
+	X("pop.refuse-too-long: more than stored is refused, nothing changes", IMP((n_) > g_len, (r_) == 0 && Q_SAME(q_))) \
+	X("pop.refusal-unchanged", IMP((r_) == 0, Q_SAME(q_))) \
+	X("pop.must-succeed: with a destination every request within the content succeeds", IMP((n_) <= g_len && (d_) != 0, (r_) != 0)) \
+	X("pop.struct", IMP((r_) != 0, (q_)->len == g_len - (n_) && (q_)->off == g_off && Q_GEOM(q_))) \
+	X("pop.remaining-view", IMP((r_) != 0 && g_k1 < g_len - (n_), QV(q_, g_k1) == g_v1)) \
+	X("pop.copied-bytes", IMP((r_) != 0 && (d_) && g_k2 >= g_len - (n_) && g_k2 < g_len, ((const uint8_t *) (d_))[g_k2 - (g_len - (n_))] == g_v2)) \
+	X("pop.returned-address", IMP((r_) != 0 && g_k2 == g_len - (n_) && (n_) > 0, *((const uint8_t *) (r_)) == g_v2)) \
+	X("pop.storage-untouched", Q_PHYS(q_))
 
 void *mpt_qpop(queue_t *queue, size_t len, void *data)
 __CPROVER_requires(Q_WF(queue) && Q_BIND(queue))
 /* excluded: zero-length transfer on an unallocated queue (memcpy(dst, NULL, 0), no byte is accessed) */
 __CPROVER_requires(IMP(len == 0, queue->base != 0))
 __CPROVER_assigns(queue->len, V_ERRNO; data: __CPROVER_object_upto(data, len))
-__CPROVER_ensures(POP_REFUSE_LONG(queue, len, __CPROVER_return_value))       /*@case pop.refuse-too-long: more than stored is refused, nothing changes*/
-__CPROVER_ensures(POP_REFUSED_SAME(queue, __CPROVER_return_value))           /*@case pop.refusal-unchanged*/
-__CPROVER_ensures(POP_MUST_SUCCEED(len, data, __CPROVER_return_value))       /*@case pop.must-succeed: with a destination every request within the content succeeds*/
-__CPROVER_ensures(POP_OK_STRUCT(queue, len, __CPROVER_return_value))         /*@case pop.struct*/
-__CPROVER_ensures(POP_OK_KEEP(queue, len, __CPROVER_return_value))           /*@case pop.remaining-view*/
-__CPROVER_ensures(POP_OK_DATA(queue, len, data, __CPROVER_return_value))     /*@case pop.copied-bytes*/
-__CPROVER_ensures(POP_OK_PTR(queue, len, __CPROVER_return_value))            /*@case pop.returned-address*/
-__CPROVER_ensures(POP_STORAGE(queue))                                        /*@case pop.storage-untouched*/
+POST_mpt_qpop(C_ENSURES, queue, len, data, __CPROVER_return_value)
 ;
 
 void harness(void)
@@ -36,14 +30,7 @@ void harness(void)
 	V_REQ(in_n <= CAP && IMP(in_n == 0, in_max != 0));
 	if (in_has_dst) { IN_BUF(dst, in_n); }
 	ret = mpt_qpop(&q, in_n, dst);
-	V_ENS("pop.refuse-too-long", POP_REFUSE_LONG(&q, in_n, ret));
-	V_ENS("pop.refusal-unchanged", POP_REFUSED_SAME(&q, ret));
-	V_ENS("pop.must-succeed", POP_MUST_SUCCEED(in_n, dst, ret));
-	V_ENS("pop.struct", POP_OK_STRUCT(&q, in_n, ret));
-	V_ENS("pop.remaining-view", POP_OK_KEEP(&q, in_n, ret));
-	V_ENS("pop.copied-bytes", POP_OK_DATA(&q, in_n, dst, ret));
-	V_ENS("pop.returned-address", POP_OK_PTR(&q, in_n, ret));
-	V_ENS("pop.storage-untouched", IMP(g_p < g_max, st[g_p] == g_vp));
+	POST_mpt_qpop(H_ENS, &q, in_n, dst, ret)
 	V_COVER("wrapped content popped across both segments", ret != 0 && g_off + g_len > g_max && in_n > g_off + g_len - g_max);
 	V_COVER("aligned pop", ret != 0 && g_off + g_len <= g_max && in_n > 0);
 	V_COVER("refused", ret == 0);
